@@ -8,6 +8,7 @@ import (
 	"bytes"
 	"context"
 	"encoding/binary"
+	"errors"
 	"fmt"
 	"io"
 	"sort"
@@ -102,7 +103,9 @@ type RPCSpec struct {
 	UsePeerOpt    bool              `json:"peer_opt,omitempty"`
 	UseChanOpt    bool              `json:"chan_opt,omitempty"`
 	Creds         map[string]string `json:"creds,omitempty"`
+	Creds2        map[string]string `json:"creds2,omitempty"` // a second PerRPCCredentials option
 	NoOutgoingMD  bool              `json:"no_out_md,omitempty"`
+	CtxCause      bool              `json:"ctx_cause,omitempty"` // caller context created with WithCancelCause / WithTimeoutCause
 	// RawMethod, if set (use "<empty>" for the empty string), replaces the full method path.
 	RawMethod string `json:"raw_method,omitempty"`
 
@@ -692,9 +695,16 @@ func (e *Env) StartRPC(parent context.Context, ch grpc.ClientConnInterface, spec
 		}
 		ctx = metadata.NewOutgoingContext(ctx, md)
 	}
-	if spec.Timeout > 0 {
+	// the caller's context may be any of the standard library's flavours, including those that carry a custom cause
+	switch {
+	case spec.Timeout > 0 && spec.CtxCause:
+		spec.ctx, spec.cancel = context.WithTimeoutCause(ctx, spec.Timeout, errors.New("request budget used up (custom cause)"))
+	case spec.Timeout > 0:
 		spec.ctx, spec.cancel = context.WithTimeout(ctx, spec.Timeout)
-	} else {
+	case spec.CtxCause:
+		c2, cancelCause := context.WithCancelCause(ctx)
+		spec.ctx, spec.cancel = c2, func() { cancelCause(errors.New("caller lost interest (custom cause)")) }
+	default:
 		spec.ctx, spec.cancel = context.WithCancel(ctx)
 	}
 	spec.done = make(chan struct{})
@@ -722,6 +732,9 @@ func (spec *RPCSpec) callOpts() []grpc.CallOption {
 	}
 	if spec.Creds != nil {
 		opts = append(opts, grpc.PerRPCCredentials(staticCreds(spec.Creds)))
+	}
+	if spec.Creds2 != nil {
+		opts = append(opts, grpc.PerRPCCredentials(staticCreds(spec.Creds2)))
 	}
 	return opts
 }
